@@ -1,1 +1,61 @@
+import Dbg.Lemmas.SymProof
 import Dbg.Model.Pipeline
+/-! # C06 — Strand symmetry when unstranded, strand separation when stranded
+
+Proved so far (string level): the canonical form chosen by `min_rc_flip` is the lexicographic minimum of a k-mer and
+its reverse complement, is the same for both, the flip flags of the two are opposite unless the k-mer is its own
+reverse complement, and in stranded mode no canonicalisation happens.  The invariance of the table and of the three
+pipelines under reverse-complementing any subset of reads is an executable predicate evaluated on the crate's
+outputs (partial). -/
+namespace Compress
+
+theorem seq_lt_irrefl (x : Seq) : ¬ x < x := List.lt_irrefl x
+theorem seq_lt_asymm {x y : Seq} (h : x < y) : ¬ y < x := List.lt_asymm h
+
+/-- every reported key is the lexicographic minimum of the k-mer and its reverse complement -/
+theorem C06_key_is_min (x : Seq) :
+    ((minRcFlip x).1 = x ∨ (minRcFlip x).1 = rc x) ∧ ¬ x < (minRcFlip x).1 ∧ ¬ rc x < (minRcFlip x).1 := by
+  unfold minRcFlip
+  by_cases h : x < rc x
+  · rw [if_pos h]
+    exact ⟨Or.inl rfl, seq_lt_irrefl x, seq_lt_asymm h⟩
+  · rw [if_neg h]
+    exact ⟨Or.inr rfl, h, seq_lt_irrefl _⟩
+
+/-- a k-mer and its reverse complement have the same canonical form -/
+theorem C06_key_rc_invariant (x : Seq) : (minRcFlip (rc x)).1 = (minRcFlip x).1 := by
+  unfold minRcFlip
+  rw [rc_rc]
+  by_cases h1 : x < rc x
+  · have h2 : ¬ rc x < x := seq_lt_asymm h1
+    simp [h1, h2]
+  · by_cases h2 : rc x < x
+    · simp [h1, h2]
+    · -- neither is smaller: they are equal
+      have : x = rc x := by
+        rcases Std.lt_trichotomy x (rc x) with h | h | h
+        · exact absurd h h1
+        · exact h
+        · exact absurd h h2
+      simp [h1, h2, ← this]
+
+/-- the flip flags of a k-mer and of its reverse complement are opposite, unless the k-mer is its own reverse complement -/
+theorem C06_flip_opposite (x : Seq) (hne : x ≠ rc x) : (minRcFlip (rc x)).2 = !(minRcFlip x).2 := by
+  unfold minRcFlip
+  rw [rc_rc]
+  by_cases h1 : x < rc x
+  · have h2 : ¬ rc x < x := seq_lt_asymm h1
+    simp [h1, h2]
+  · have h2 : rc x < x := by
+      rcases Std.lt_trichotomy x (rc x) with h | h | h
+      · exact absurd h h1
+      · exact absurd h hne
+      · exact h
+    simp [h1, h2]
+
+/-- in stranded mode a k-mer is never replaced by its reverse complement -/
+theorem C06_stranded_no_canon (x : Seq) : canonSt true x = (x, false) := by simp [canonSt]
+
+theorem C06_unstranded_canon (x : Seq) : canonSt false x = minRcFlip x := by simp [canonSt]
+
+end Compress
